@@ -21,7 +21,9 @@ from ..oracles import sep_paths as O
 from .c04 import rand_admg
 
 PROP = "C15"
-RULE = ("random ADMGs (0-6 nodes, bidirected chains, isolated nodes, random insertion order) x max_conditions in "
+RULE = ("structured `policy_shape` ADMGs (a pair with a topologically late singleton separator and an early 2-3 node separator, "
+        "and the mirror image) mostly with return_all=True, so that both retention policies have to choose between separating "
+        "sets of different sizes; random ADMGs (0-6 nodes, bidirected chains, isolated nodes, random insertion order) x max_conditions in "
         "{None, 0, 1, 2, 3, 4} x policy in {topological (default), _len_lex} x return_all in {False, True}; powerset on random "
         "lists x start x stop. A case is non-trivial when the graph has >=3 nodes, at least one pair is separable and at "
         "least one pair is not (within the limit).")
@@ -87,6 +89,41 @@ def _forms(case):
     return F.forms_of(case, _slots(case))
 
 
+def policy_shape(rng):
+    """several separating sets of DIFFERENT sizes for one pair, placed so that a wrong sort key prefers a larger one:
+    m >= 2 early common causes u_1..u_m of a and v, and v -> b (a _||_ b given {v}, the topologically LATE singleton, and given
+    {u_1..u_m}, an EARLY larger set); the mirror image (early singleton, late larger set: r -> a, r -> w_i, w_i -> b); both
+    with the pair's names in either string order, optional bidirected variants of the u_i -> a edges and a noise node"""
+    m = rng.choice([2, 2, 3])
+    lab = list(range(m + 4))
+    rng.shuffle(lab)
+    us, a, v, b, z = lab[:m], lab[m], lab[m + 1], lab[m + 2], lab[m + 3]
+    di, bi = [], []
+    if rng.random() < 0.6:          # late singleton {v}, early set {u_i}
+        for u in us:
+            if rng.random() < 0.25:
+                bi.append([u, a])
+            else:
+                di.append([u, a])
+            di.append([u, v])
+        di.append([v, b])
+    else:                           # early singleton {v}, late set {u_i}
+        di.append([v, a])
+        for u in us:
+            di.append([v, u])
+            di.append([u, b])
+    nodes = []
+    r = rng.random()
+    if r < 0.3:
+        nodes = [z]                 # an isolated node
+    elif r < 0.5:
+        di.append([b, z])
+    rng.shuffle(di)
+    if rng.random() < 0.5:
+        nodes = nodes + rng.sample(lab[:m + 3], rng.randint(0, m + 3))    # some nodes listed explicitly, in another order
+    return {"nodes": nodes, "di": di, "bi": bi}
+
+
 def cases(rng: random.Random, tier: str):
     return [F.assign(c, _slots(c)) for c in _cases(rng, tier)]
 
@@ -98,6 +135,11 @@ def _cases(rng: random.Random, tier: str):
         g = rand_admg(rng, 0 if rng.random() < 0.05 else 2, 6 if rng.random() < 0.4 else 5)
         out.append({"kind": "ci", "g": g, "k": rng.choice([None, None, 0, 1, 1, 2, 2, 3, 4]),
                     "policy": rng.choice(["topological", "topological", "len_lex"]), "all": rng.random() < 0.35})
+    for _ in range(150 if tier == "quick" else 900):     # the retention policies have to choose between sets of different sizes
+        g = policy_shape(rng)
+        n = len(G.all_nodes(g))
+        out.append({"kind": "ci", "g": g, "k": rng.choice([None, None, 2, 3, n]),
+                    "policy": rng.choice(["topological", "topological", "len_lex"]), "all": rng.random() < 0.8})
     for _ in range(40 if tier == "quick" else 200):     # cyclic graphs: topological policy raises, len_lex does not
         g = G.rand_graph(rng, 2, 5, acyclic=False)
         out.append({"kind": "ci", "g": g, "k": rng.choice([None, 1, 2]), "policy": rng.choice(["topological", "len_lex"]),
@@ -162,7 +204,7 @@ def _call_ci(case):
         if case["policy"] == "topological":
             order = [G.vint(v) for v in graph.topological_sort()]
         return res, order, None
-    except (nx.NetworkXError, nx.NetworkXUnfeasible, KeyError, ValueError, TypeError) as e:
+    except Exception as e:  # noqa: BLE001 - whatever the class (NodeNotFound, AttributeError, ...): an outcome of the real code
         return None, None, type(e).__name__
 
 
@@ -269,7 +311,14 @@ def _run_powerset(case):
     n = len(s)
     hi = n if stop is None else min(stop - 1, n)
     want = [list(c) for r in range(start, hi + 1) for c in itt.combinations(s, r)]
-    fail = None if got == want else f"powerset({s}, {start}, {stop}) = {got}, documented: sizes {start}..{hi}"
+    # 'successively longer combinations of the source': sizes never decrease (the first hit of d_separations is then of minimum
+    # size), every combination of each admissible size exactly once.  The order INSIDE one size is not part of any contract
+    # (it is compared with the model by the correspondence only).
+    fail = None
+    if [len(c) for c in got] != [len(c) for c in want]:
+        fail = f"powerset({s}, {start}, {stop}) yields sizes {[len(c) for c in got]}, documented: every combination of sizes {start}..{hi}, shorter first"
+    elif sorted(sorted(c) for c in got) != sorted(sorted(c) for c in want):
+        fail = f"powerset({s}, {start}, {stop}) = {got} is not the set of all combinations of sizes {start}..{hi}"
     return {"out": ["ok", [[str(x) for x in c] for c in got]], "fail": fail, "nontrivial": n >= 2,
             "tags": dict({"kind": "powerset", "n": n, "stop": str(stop)}, **F.tags(fm))}
 
